@@ -18,7 +18,9 @@ Clauses(e) ==
           <<"axis-last-bin", e.raised \/ e.len # SLen(e.sides, e.nfft) \/ e.last = Bin(e.sides, e.nfft, e.len)>>,
           <<"axis-values", e.raised \/ e.len # SLen(e.sides, e.nfft) \/ Small(e.dev, 1000)>>,
           \* frequencies() without argument is the axis of the current layout
-          <<"axis-default-argument", e.raised \/ e.noarg_same>> }
+          <<"axis-default-argument", e.raised \/ e.noarg_same>>,
+          \* a stored vector at this NFFT: every layout as long as its axis, total power kept, the way back exact
+          <<"conversions-at-this-nfft", e.raised \/ e.conv_ok>> }
     ELSE { <<"unknown-event", FALSE>> }
 
 VARIABLES l, fails
